@@ -4,6 +4,7 @@ Model construction from parse trees and the model API.
 
 from __future__ import annotations
 
+import bisect
 import traceback
 from collections import OrderedDict
 from collections.abc import Callable
@@ -1097,6 +1098,8 @@ class ReferenceResolver:
         self.model = model
         self.pos_crossref_list = pos_crossref_list  # tool support
         self.delayed_crossrefs = []
+        # (id(obj), attr name) -> sorted positions of resolved list references
+        self._resolved_positions = {}
 
     def has_unresolved_crossrefs(self, obj, attr_name=None):
         """
@@ -1203,7 +1206,16 @@ class ReferenceResolver:
                 else:
                     resolved_crossref_count += 1
                     if attr.mult in [MULT_ONEORMORE, MULT_ZEROORMORE]:
-                        attr_value.append(resolved)
+                        # References may resolve out of order (Postponed).
+                        # Insert by position to keep the textual order.
+                        positions = self._resolved_positions.setdefault(
+                            (id(obj), attr.name), []
+                        )
+                        idx = bisect.bisect_left(positions, crossref.position)
+                        positions.insert(idx, crossref.position)
+                        attr_value.insert(
+                            len(attr_value) - len(positions) + 1 + idx, resolved
+                        )
                     else:
                         setattr(obj, attr.name, resolved)
             else:  # crossref not in model
